@@ -240,7 +240,15 @@ func mergePossibleTypes(sources []*ast.Schema, mergedTypes map[string]*ast.Defin
 func mergeRootObjects(aTypes, bTypes map[string]*ast.Definition, a, b *ast.Definition) (*ast.Definition, error) {
 	var fields ast.FieldList = a.Fields
 	for _, f := range b.Fields {
-		if common.IsBuiltinName(f.Name) || isNodeField(f) {
+		if common.IsBuiltinName(f.Name) {
+			continue
+		}
+
+		// every service with Node types declares the node field: keep it once
+		if isNodeField(f) {
+			if fields.ForName(f.Name) == nil {
+				fields = append(fields, f)
+			}
 			continue
 		}
 
